@@ -399,7 +399,7 @@ func buildEncs(kind string, orig []byte, c chooser, excl func(string) bool) ([]E
 	return out, nil
 }
 
-const rule = "for each of the 33 transaction kinds: a well-formed transaction executed in a block of a warmed-up state, then resubmitted 1..10 blocks later (further resubmissions in the following blocks) byte-identical and under 18 re-encoding operators that keep the parsed signed content (whitespace, key order, duplicate keys, unknown members, key case, key / string escapes, base64 line breaks and trailing bits, numeric forms; OLVM additionally 8 payload / memo / signer-entry variants of the same EIP-155 content); every resubmission is classified with the parser (equivalent or not); oracle: CheckTx rejects and the block carrying it leaves the committed state equal to the twin's; non-trivial = the original succeeded with an effect beyond the fee (probe replica) and the resubmitted bytes differ from the original; distinct by (kind, operator)"
+const rule = "for each of the 33 transaction kinds (OLVM: transfers and message calls, including calls that fail inside the EVM by revert / out of gas and are committed as executed): a well-formed transaction executed in a block of a warmed-up state, then resubmitted 1..10 blocks later (occasionally 40..120; further resubmissions in the following blocks, the byte-identical one twice) byte-identical and under 18 re-encoding operators that keep the parsed signed content (whitespace, key order, duplicate keys, unknown members, key case, key / string escapes, base64 line breaks and trailing bits, numeric forms; OLVM additionally 8 inner-payload / memo / signer-entry variants of the same EIP-155 content with a canonical outer encoding); every resubmission is classified with the parser (equivalent or not); oracle: CheckTx rejects and the block carrying it leaves the committed state equal to the twin's; non-trivial = the original succeeded with an effect beyond the fee (probe replica) and the resubmitted bytes differ from the original; distinct by (kind, operator)"
 
 func TestC05(t *testing.T) {
 	h := run.Start(t, "C05")
